@@ -1,6 +1,7 @@
 package main
 
 import (
+	"strconv"
 	"context"
 	"fmt"
 	"github.com/celestiaorg/go-header/p2p"
@@ -173,9 +174,11 @@ func c13AllHang(op string, n int) {
 		panic(err)
 	}
 	defer ex.Stop(context.Background()) //nolint:errcheck
-	ctx, cancel := context.WithTimeout(context.Background(), 5*time.Second)
+	// the caller itself is patient: every per-peer request runs into RequestTimeout (250 ms) long before this
+	ctx, cancel := context.WithTimeout(context.Background(), 6*time.Second)
 	defer cancel()
 	r, ec := "zero", "nil"
+	t0 := time.Now()
 	func() {
 		defer func() {
 			if p := recover(); p != nil {
@@ -200,13 +203,30 @@ func c13AllHang(op string, n int) {
 	for i := range order {
 		order[i] = itoa(i)
 	}
-	emit("C13 op=%s n=%d answers=%s order=%s => hdr=%s err=%s", op, n, strings.Repeat("hang,", n-1)+"hang", strings.Join(order, ","), r, ec)
+	slow := 0
+	if time.Since(t0) > 3*time.Second {
+		slow = 1 // still waiting long after every request timed out
+	}
+	emit("C13 op=%s n=%d transport=real answers=%s order=%s => hdr=%s err=%s slow=%d", op, n, strings.Repeat("hang,", n-1)+"hang", strings.Join(order, ","), r, ec, slow)
 }
 
 func runC13(tier string, r *rng) {
+	if line := os.Getenv("VERIF_REPLAY_CASE"); line != "" {
+		kv := kvOf(line)
+		if kv["transport"] == "real" {
+			n, _ := strconv.Atoi(kv["n"])
+			c13AllHang(kv["op"], n)
+			return
+		}
+	}
 	for _, n := range []int{1, 2, 4} {
-		c13AllHang("get", n)
-		c13AllHang("byheight", n)
+		if os.Getenv("VERIF_REPLAY_CASE") != "" {
+			break
+		}
+		for round := 0; round < 2; round++ { // the stream deadline races the context timer: twice each
+			c13AllHang("get", n)
+			c13AllHang("byheight", n)
+		}
 	}
 	e := newP2PEnv(4)
 	defer e.closer()
